@@ -702,6 +702,21 @@ FIXED = {
 }
 
 
+def text_block_family():
+    out = []
+    kinds = {"text": lambda ind: ind + "text", "empty": lambda ind: "", "ws": lambda ind: ind + "  ",
+             "trail": lambda ind: ind + "trailing  ", "deeper": lambda ind: ind + "  deeper"}
+    for chomp in ("", "-"):
+        for ind in ("  ", "    ", "\t"):
+            for mid in ("text", "empty", "ws", "trail", "deeper", None):
+                for last in kinds:
+                    lines = [ind + "first"] + ([kinds[mid](ind)] if mid else []) + [kinds[last](ind)]
+                    blk = "|||" + chomp + "\n" + "\n".join(lines) + "\n|||"
+                    ctx = ["{ name: 'x', body: %s, z: 1 }", "[%s, 2]", "local s = %s; s", "f(%s)"][(len(out)) % 4]
+                    out.append(ctx % blk)
+    return out
+
+
 def build_cases(run, quick_scale=1.0):
     """list of case dicts {src, comments, style, risky, features, stream}"""
     rng = run.rng
@@ -726,6 +741,15 @@ def build_cases(run, quick_scale=1.0):
     for rk in RISKY:
         add("risky-" + rk, 24, risky=(rk,))
     add("risky-mixed", 40, risky=tuple(RISKY), comment_at="slots", density=0.15)
+    # fixed text-block family (no comments): chomping x indentation x what the middle and the LAST content
+    # line are (text / truly empty / whitespace beyond the indentation / trailing spaces / deeper) x context
+    tb = text_block_family()
+    if not thorough:
+        r2 = rng.fork("textblock-family")
+        tb = [c for c in tb if r2.chance(0.3 * quick_scale)]
+    for src in tb:
+        cases.append({"src": src, "comments": [], "style": "canonical", "risky": [], "features": {"string:textblock": 1},
+                      "stream": "textblock-family"})
     for fid, src in CANONICAL.items():
         cases.append({"src": src, "comments": [], "style": "canonical", "risky": [], "features": {},
                       "stream": "canonical", "canonical": fid})
